@@ -172,6 +172,12 @@ def step (st : DState) (line : String) : DState × Option String :=
     match k.toNat? with
     | none => (st, some "bad-op")
     | some k => let st := { st with cur := k }; (st, some (showCur st true))
+  | ["cleanup_all"] =>
+    -- Service::CleanupAllSessions: every live session is destroyed
+    let dummy : Ctx × String := ({}, "")
+    let svc := st.svc.live.foldl (fun s k => (RimeModel.C16.Svc.step dummy (sessStep st) s (.destroy k)).1) st.svc
+    let st := { st with svc := svc }
+    (st, some (showCur st true))
   | ["destroy", k] =>
     match k.toNat? with
     | none => (st, some "bad-op")
